@@ -119,6 +119,14 @@ def main():
     crate = vf.Crate(os.path.join(chk.work, "crate"), "c02cases", deps=["vt", "async-trait"])
     crate.prelude = PRELUDE
     origin = {}
+    if thorough:
+        # 42^3 three-item bodies make one crate of 75 000 modules: replay all bodies of <= 2 items and a seeded 20 000 of the rest
+        # (TLC has model-checked all of them)
+        small = [c for c in cases if len(c["body"]) <= 2]
+        big = [c for c in cases if len(c["body"]) > 2]
+        rng.shuffle(big)
+        chk.cov["bodies_model_checked"] = len(cases)
+        cases = small + big[:20000]
     for c in cases:
         cid = "e" + c["case"]
         if c["mode"] == "mod":
@@ -162,7 +170,7 @@ def main():
     import glob
     import subprocess
     r = subprocess.run(["cargo", "check", "--offline", "--message-format=json"], cwd=crate.root, env=vf.cargo_env(dump),
-                       capture_output=True, text=True, timeout=1800)
+                       capture_output=True, text=True, timeout=3600)
     parse_errors = []
     for line in r.stdout.splitlines():
         if line.startswith("{") and '"compiler-message"' in line:
